@@ -22,6 +22,130 @@ pub mod spec_name_builder {
     /// A complete label `l` (1..=63 octets) in wire form.
     pub open spec fn wire_label(l: Seq<u8>) -> Seq<u8> { seq![l.len() as u8] + l }
 
+    /// Offsets shifted by `d` (a name appended after `d` octets).
+    pub open spec fn shift(s: Seq<int>, d: int) -> Seq<int> { Seq::new(s.len(), |k: int| s[k] + d) }
+
+    /// Where label `i` of the valid name `s` starts, or `s.len()` past the last one.
+    pub open spec fn pref(s: Seq<u8>, i: int) -> int {
+        if 0 <= i < name_offsets(s).len() { name_offsets(s)[i] } else { s.len() as int }
+    }
+
+    /// Walking `label_starts`: entry j is a length octet 1..=63 inside `p`, the
+    /// first entry is `s`, and each label ends where the next one starts (or at
+    /// the end of `p`).
+    pub proof fn lemma_starts_step(p: Seq<u8>, s: int, j: int)
+        requires 0 <= s <= p.len(), labels_ok(p, s), 0 <= j < label_starts(p, s).len(),
+        ensures
+            label_starts(p, s)[0] == s,
+            s <= label_starts(p, s)[j] < p.len(),
+            1 <= p[label_starts(p, s)[j]] <= 63,
+            label_starts(p, s)[j] + 1 + p[label_starts(p, s)[j]] as int <= p.len(),
+            label_starts(p, s)[j] + 1 + p[label_starts(p, s)[j]] as int
+                == (if j + 1 < label_starts(p, s).len() { label_starts(p, s)[j + 1] } else { p.len() as int }),
+        decreases p.len() - s
+    {
+        let nx = s + p[s] as int + 1;
+        assert(label_starts(p, s) =~= seq![s] + label_starts(p, nx));
+        if j == 0 {
+            if nx < p.len() {
+                assert(label_starts(p, nx)[0] == nx);
+            } else {
+                assert(label_starts(p, nx) =~= Seq::<int>::empty());
+            }
+        } else {
+            lemma_starts_step(p, nx, j - 1);
+            assert(label_starts(p, s)[j] == label_starts(p, nx)[j - 1]);
+            if j + 1 < label_starts(p, s).len() {
+                assert(label_starts(p, s)[j + 1] == label_starts(p, nx)[j]);
+            }
+        }
+    }
+
+    /// The labels of a valid name tile it: label i starts at name_offsets[i], its
+    /// length octet is <= 63 (0 exactly for the last one) and it ends where label
+    /// i+1 starts (the last one ends at the end of the name).
+    pub proof fn lemma_name_step(s: Seq<u8>, i: int)
+        requires valid_name(s), 0 <= i < name_offsets(s).len(),
+        ensures
+            pref(s, 0) == 0,
+            0 <= pref(s, i) < s.len(),
+            s[pref(s, i)] <= 63,
+            (s[pref(s, i)] == 0) == (i == name_offsets(s).len() - 1),
+            pref(s, i) + 1 + s[pref(s, i)] as int == pref(s, i + 1),
+            pref(s, i + 1) <= s.len(),
+    {
+        let p = s.drop_last();
+        let st = label_starts(p, 0);
+        assert(name_offsets(s) =~= st.push(s.len() - 1));
+        if st.len() > 0 {
+            lemma_starts_step(p, 0, 0);
+        } else {
+            // no non-null label: labels_ok(p, 0) with no start means p is empty
+            if p.len() > 0 {
+                assert(label_starts(p, 0) =~= seq![0int] + label_starts(p, p[0] as int + 1));
+            }
+        }
+        if i < st.len() {
+            lemma_starts_step(p, 0, i);
+            assert(p[st[i]] == s[st[i]]);
+        }
+    }
+
+    /// Labels of `q` from `j` on, seen inside `p + q`.
+    pub proof fn lemma_shift(p: Seq<u8>, q: Seq<u8>, j: int)
+        requires 0 <= j <= q.len(), labels_ok(q, j),
+        ensures
+            labels_ok(p + q, p.len() + j),
+            label_starts(p + q, p.len() + j) =~= shift(label_starts(q, j), p.len() as int),
+        decreases q.len() - j
+    {
+        let r = p + q;
+        if j < q.len() {
+            assert(r[p.len() + j] == q[j]);
+            lemma_shift(p, q, j + q[j] as int + 1);
+            assert(label_starts(q, j) =~= seq![j] + label_starts(q, j + q[j] as int + 1));
+            assert(label_starts(r, p.len() + j) =~= seq![p.len() + j] + label_starts(r, p.len() + j + q[j] as int + 1));
+        } else {
+            assert(label_starts(q, j) =~= Seq::<int>::empty());
+            assert(label_starts(r, p.len() + j) =~= Seq::<int>::empty());
+        }
+    }
+
+    /// Appending a run of complete labels `q` to a run of complete labels `p`.
+    pub proof fn lemma_concat_starts(p: Seq<u8>, q: Seq<u8>, i: int)
+        requires 0 <= i <= p.len(), labels_ok(p, i), labels_ok(q, 0),
+        ensures
+            labels_ok(p + q, i),
+            label_starts(p + q, i) =~= label_starts(p, i) + shift(label_starts(q, 0), p.len() as int),
+        decreases p.len() - i
+    {
+        let r = p + q;
+        if i == p.len() {
+            lemma_shift(p, q, 0);
+            assert(label_starts(p, i) =~= Seq::<int>::empty());
+        } else {
+            assert(r[i] == p[i]);
+            lemma_concat_starts(p, q, i + p[i] as int + 1);
+            assert(label_starts(p, i) =~= seq![i] + label_starts(p, i + p[i] as int + 1));
+            assert(label_starts(r, i) =~= seq![i] + label_starts(r, i + r[i] as int + 1));
+        }
+    }
+
+    /// Complete labels `p` followed by a valid name `s` form a valid name (if it
+    /// fits 255 octets) whose label offsets are those of `p` followed by those of
+    /// `s` shifted by `p.len()`.
+    pub proof fn lemma_concat_name(p: Seq<u8>, s: Seq<u8>)
+        requires labels_ok(p, 0), valid_name(s), p.len() + s.len() <= 255,
+        ensures
+            valid_name(p + s),
+            name_offsets(p + s) =~= label_starts(p, 0) + shift(name_offsets(s), p.len() as int),
+    {
+        let q = s.drop_last();
+        assert((p + s).drop_last() =~= p + q);
+        lemma_concat_starts(p, q, 0);
+        assert(shift(name_offsets(s), p.len() as int) =~= shift(label_starts(q, 0), p.len() as int).push(p.len() + s.len() - 1));
+    }
+
     /// label_starts/labels_ok only look at the prefix they walk.
     pub proof fn lemma_offsets_bound(p: Seq<u8>, i: int)
         requires 0 <= i <= p.len(), labels_ok(p, i),
